@@ -16,10 +16,10 @@ import prop_lib
 
 C03_VFILES = ["Mem/Alloc.v", "Mem/AllocProofs.v", "Mem/PropList.v", "Mem/Owned.v", "Mem/PropListProofs.v",
               "Mem/ParamSlots.v", "Mem/ParamProofs.v", "Mem/DataAlloc.v", "Mem/DataProofs.v", "Mem/DataZ0.v", "Mem/DataZ0Proofs.v", "Mem/AddArrays.v", "Mem/AddArraysProofs.v",
-              "Mem/HashTab.v", "Mem/HashTabProofs.v", "Properties_C03.v"]
+              "Mem/HashTab.v", "Mem/HashTabProofs.v", "Mem/NewAlloc.v", "Mem/NewAllocProofs.v", "Properties_C03.v"]
 C12_VFILES = ["Mem/Alloc.v", "Mem/AllocProofs.v", "Mem/PropList.v", "Mem/Owned.v", "Mem/PropListProofs.v",
               "Mem/ParamSlots.v", "Mem/ParamProofs.v", "Mem/DataAlloc.v", "Mem/DataProofs.v", "Mem/DataZ0.v", "Mem/DataZ0Proofs.v",
-              "Mem/HashTab.v", "Mem/HashTabProofs.v", "Properties_C12.v"]
+              "Mem/HashTab.v", "Mem/HashTabProofs.v", "Mem/NewAlloc.v", "Mem/NewAllocProofs.v", "Properties_C12.v"]
 
 MODELLED = [
     "vnaproperty.c: list_check_allocation, list_alloc, list_subtree, list_insert, list_append, list_delete, scalar_alloc, "
@@ -382,3 +382,257 @@ def run_tie(ctx, exe_unused, prop):
                   {"script": small, "line": i, "model": ml, "implementation": cl, "how": "harness/mem_wb.c vs ocaml/drv_mem", "stderr": err[-2000:]})
     broken.append("tie:mem")
     return broken
+
+
+# ---------------------------------------------------------------------------------------------------------------
+# The vnacal_new_t allocation skeleton (coq/Mem/NewAlloc.v, harness/mem_wb2.c, ocaml/drv_mem2.ml)
+# ---------------------------------------------------------------------------------------------------------------
+NEW_VFILES = ["Mem/NewAlloc.v", "Mem/NewAllocProofs.v"]
+NEW_MODELLED = [
+    "vnacal_new.c: vnacal_new_alloc (every ENOMEM exit through vnacal_new_free of the partly built structure), vnacal_new_free, "
+    "_vnacal_new_free_measurement; vnacal_new_add_common.c: _vnacal_new_add_common (parameter validation before any request, the measurement with "
+    "its m vectors, vnm_s_matrix, _vnacal_new_get_parameter per S cell, connectivity matrix, equations and terms, the `out:` clean-up), add_equation; "
+    "vnacal_new_parameter.c: _vnacal_new_check_parameter, _vnacal_new_get_parameter incl. the VNACAL_CORRELATED recursion, hold / release; "
+    "vnacal_new_set_m_error.c (allocate once, overwrite, clear, the spline temporaries); vnacal_new_solve.c: _vnacal_new_solve_init / _free, "
+    "_vnacal_new_solve_internal (calibration, TRL indices, write-back of the solved vectors into the parameters); vnacal_calibration.c: "
+    "_vnacal_calibration_alloc / _free; vnacal_free.c ring walk (coq/Mem/NewAlloc.v: request order, what every exit releases, holds, unknown list)",
+]
+
+NEW_TYPES = [(0, "T"), (1, "U"), (2, "T"), (3, "U"), (4, "T"), (5, "U"), (6, "U"), (8, "U")]
+
+
+def gen_new_cfg(rng, n):
+    """user parameters in creation order: s, u<o>, c<o> with o an earlier parameter (chains allowed)"""
+    kinds = []
+    for i in range(n):
+        idx = 3 + i
+        y = rng.random()
+        if y < 0.35 or idx == 3:
+            kinds.append("s")
+        else:
+            o = rng.choice([rng.randrange(0, idx), idx - 1, rng.randrange(3, idx)])
+            kinds.append(("u%d" if y < 0.65 else "c%d") % o)
+    return kinds
+
+
+def _new_std(rng, rows, cols, nprm):
+    ports = max(rows, cols)
+
+    def par():
+        return rng.choice([0, 1, 2] + list(range(3, nprm)) * 3 + [nprm, -1])
+    y = rng.random()
+    if ports >= 2 and y < 0.25:
+        return "th %d %d" % tuple(rng.sample(range(1, ports + 1), 2))
+    if ports >= 2 and y < 0.55:
+        p1, p2 = rng.sample(range(1, ports + 1), 2)
+        return "dr %d %d %d %d" % (p1, p2, par(), par())
+    if y < 0.93:
+        return "sr %d %d" % (rng.choice(list(range(1, ports + 1)) + [ports + 1]), par())
+    return "bad"
+
+
+def gen_new_history(rng, nops, faults):
+    """one segment: parameters, then calls on up to three vnacal_new_t; handles from live / freed / never made"""
+    kinds = gen_new_cfg(rng, rng.randint(2, 6))
+    nprm = 3 + len(kinds)
+    ops = ["-1 cfg " + " ".join(kinds)]
+    dims = []
+
+    def k():
+        return rng.randrange(0, 16) if (faults and rng.random() < 0.45) else -1
+    for _ in range(nops):
+        y = rng.random()
+        h = rng.choice(list(range(len(dims))) * 4 + [len(dims), 7]) if dims else 0
+        if not dims or (y < 0.08 and len(dims) < 3):
+            t, kind = rng.choice(NEW_TYPES)
+            r, c = rng.choice([(1, 1), (2, 2), (1, 2), (2, 2)] if kind == "T" else [(1, 1), (2, 2), (2, 1), (2, 2)])
+            if rng.random() < 0.1:
+                t, r, c = rng.choice([(7, 1, 1), (9, 1, 1), (0, 0, 1), (0, 2, 1), (1, 1, 2)])
+            kk = k()
+            ops.append("%d N %d %d %d %d" % (kk, t, r, c, rng.choice([1, 2, 2, 3])))
+            ok = (t, r, c) not in [(7, 1, 1), (9, 1, 1), (0, 0, 1), (0, 2, 1), (1, 1, 2)]
+            if ok and kk >= 0:
+                ops.append("-1 " + ops[-1].split(" ", 1)[1])
+            if ok:
+                dims.append((r, c))
+                if rng.random() < 0.9:
+                    ops.append("-1 T %d" % (len(dims) - 1))
+            continue
+        r, c = dims[h] if h < len(dims) else (1, 1)
+        if y < 0.55:
+            ops.append("%d A %d %s" % (k(), h, _new_std(rng, r, c, nprm)))
+        elif y < 0.75:
+            ops.append("%d E %d %s" % (k(), h, rng.choice(["set 0", "set 0", "set 1", "set 2", "set 2", "clear", "clear", "clear", "bad", "inv"])))
+        elif y < 0.92:
+            ops.append("%d S %d" % (k(), h))
+        elif y < 0.96:
+            ops.append("-1 T %d" % h)
+        else:
+            ops.append("-1 F %d" % h)
+    ops.append("-1 end")
+    return ops
+
+
+# short directed histories; every (op, k) of them is enumerated
+NEW_DIRECTED = {
+    # one-port T8 with an unknown and two correlated parameters; the correlate of 6 (parameter 4) is not in the hash when 6 is added
+    "t8_1x1_correlated": ["-1 cfg s u3 c3 c4 u5", "-1 N 0 1 1 2", "-1 T 0", "-1 A 0 sr 1 2", "-1 A 0 sr 1 6", "-1 A 0 sr 1 5", "-1 A 0 sr 1 7",
+                          "-1 E 0 set 2", "-1 S 0", "-1 E 0 clear", "-1 E 0 set 0", "-1 S 0", "-1 E 0 clear", "-1 F 0", "-1 end"],
+    # E12 2x2 (two systems), through + reflects, measurement errors by spline, solved twice; a second calibration with another frequency count
+    # solves the same unknown (the write-back replaces the frequency vector)
+    "e12_2x2_two_news": ["-1 cfg u1 c3", "-1 N 8 2 2 2", "-1 T 0", "-1 A 0 th 1 2", "-1 A 0 dr 1 2 2 1", "-1 A 0 dr 1 2 3 2", "-1 A 0 dr 1 2 0 4",
+                         "-1 E 0 set 1", "-1 S 0", "-1 N 1 1 1 3", "-1 T 1", "-1 A 1 sr 1 3", "-1 A 1 sr 1 0", "-1 A 1 sr 1 2", "-1 A 1 sr 1 4", "-1 S 1",
+                         "-1 S 0", "-1 end"],
+    # TE10 (leakage terms outside the system), eight distinct parameters: the hash grows from 8 to 16 buckets
+    "te10_hash_growth": ["-1 cfg s s s s s u4", "-1 N 2 2 2 1", "-1 T 0", "-1 A 0 dr 1 2 1 2", "-1 A 0 dr 1 2 3 4", "-1 A 0 dr 1 2 5 6", "-1 A 0 dr 1 2 7 8",
+                         "-1 A 0 th 1 2", "-1 A 0 dr 1 2 0 0", "-1 S 0", "-1 F 0", "-1 end"],
+}
+
+
+def _pair_lines(script, cl, rc):
+    """pair the harness output with the script: model input (op line + I line), C result lines, ops compared"""
+    ci = 0
+    minput, cres, ops = [], [], []
+    for line in script:
+        t = line.split()
+        if (len(t) >= 2 and t[1] in ("cfg", "end")) or t == ["end"]:
+            r = cl[ci] if ci < len(cl) else "<C harness died rc=%d>" % rc
+            ci += 1
+            minput.append(line)
+            cres.append(r)
+            ops.append(line)
+            continue
+        if ci + 1 < len(cl) and cl[ci] == "I skip" and cl[ci + 1].startswith("R SKIP"):
+            ci += 2                                  # the fault-free call fails for a numeric reason: not an op of the model
+            continue
+        info = cl[ci] if ci < len(cl) else "I none"
+        ci += 1
+        r = cl[ci] if ci < len(cl) else "<C harness died rc=%d>" % rc
+        ci += 1
+        if not info.startswith("I"):
+            info, r = "I none", "<C harness out of step: %s>" % info[:60]
+        minput += [line, info]
+        cres.append(r)
+        ops.append(line)
+    return minput, cres, ops
+
+
+def compare_new(ctx, exe, drv, script, variant="NFixed"):
+    """None when model and C agree on every op, else (index into ops, op, model line, C line, stderr)"""
+    rc, cl, err = run_c(ctx, exe, script)
+    minput, cres, ops = _pair_lines(script, cl, rc)
+    rm, out, merr = vplib.sh([drv, "variant=" + variant], input="\n".join(minput) + "\n", timeout=300)
+    ml = out.split("\n")
+    for i in range(len(ops)):
+        m = ml[i] if i < len(ml) else "<model driver died>"
+        if m != cres[i]:
+            return (i, ops[i], m, cres[i], err)
+    return None
+
+
+def new_fault_free_counts(ctx, exe, script):
+    """requests made by every op of a fault-free script (None for cfg / end / skipped ops)"""
+    rc, cl, err = run_c(ctx, exe, script)
+    minput, cres, ops = _pair_lines(script, cl, rc)
+    res = {}
+    for o, r in zip(ops, cres):
+        t = r.split()
+        if len(t) > 4 and t[0] == "R" and t[4].isdigit():
+            res[o] = max(res.get(o, 0), int(t[4]))
+    return res
+
+
+def enumerate_new(ctx, exe, script, cap=None):
+    """for every op j of the fault-free script and every request k it makes: prefix, op j with request k+1 failing, the same op
+    again without fault, the rest of the script.  One segment each."""
+    rc, cl, err = run_c(ctx, exe, script)
+    minput, cres, ops = _pair_lines(script, cl, rc)
+    counts = []
+    for o, r in zip(ops, cres):
+        t = r.split()
+        counts.append(int(t[4]) if (len(t) > 4 and t[0] == "R" and t[4].isdigit()) else 0)
+    segs = []
+    body = [l for l in script if l in ops]          # skipped ops are dropped
+    for j, (o, n) in enumerate(zip(ops, counts)):
+        t = o.split()
+        if t[1] in ("cfg", "end") or n == 0:
+            continue
+        ks = list(range(n))
+        if cap is not None and len(ks) > cap:
+            ks = sorted(set(ks[:cap // 2] + ks[-(cap - cap // 2):]))
+        for k in ks:
+            segs.append(body[:j] + ["%d %s" % (k, o.split(" ", 1)[1]), o] + body[j + 1:])
+    return segs
+
+
+def run_new_tie(ctx, prop):
+    """tie of coq/Mem/NewAlloc.v: generated histories (random k for C12) and exhaustive k over the directed histories"""
+    try:
+        exe = ctx.build_harness("mem_wb2", san=True, wrap=True)
+        drv = ctx.ocaml_driver("drv_mem2")
+    except vplib.BuildError as e:
+        ctx.obligation("tie:new:build", False, str(e)[:300])
+        return ["tie:new:build"]
+    quick = ctx.tier != "thorough"
+    faults = (prop == "C12")
+    first = None
+    nsteps = 0
+    scripts = []
+    for name, s in sorted(NEW_DIRECTED.items()):
+        scripts.append(("new/directed/" + name, list(s)))
+    for i in range(12 if quick else 120):
+        scripts.append(("new/gen/%d" % i, gen_new_history(ctx.rng, 30 if quick else 80, faults)))
+    # exhaustive k: all requests of every op of the directed histories (both properties: an ENOMEM exit is also an error exit of C03)
+    nseg = 0
+    for name, s in sorted(NEW_DIRECTED.items()):
+        segs = enumerate_new(ctx, exe, list(s), cap=None if (faults or not quick) else 6)
+        nseg += len(segs)
+        for b in range(0, len(segs), 40):
+            flat = [l for seg in segs[b:b + 40] for l in seg]
+            scripts.append(("new/enum/%s/%d" % (name, b // 40), flat))
+    if not faults or not quick:
+        pass
+    for label, ops in scripts:
+        d = compare_new(ctx, exe, drv, ops)
+        nsteps += len(ops)
+        ctx.count(("tie", label), len(ops))
+        if d is not None and first is None:
+            # keep only the segment that disagrees
+            i = d[0]
+            starts = [n for n, l in enumerate(ops) if l.split()[1:2] == ["cfg"]]
+            # index i counts compared ops; map back by replaying segment by segment
+            seg = ops
+            for a, b in zip(starts, starts[1:] + [len(ops)]):
+                cand = ops[a:b]
+                if compare_new(ctx, exe, drv, cand) is not None:
+                    seg = cand
+                    break
+
+            def still(sub):
+                return compare_new(ctx, exe, drv, [seg[0]] + sub + ["-1 end"]) is not None
+            core = [l for l in seg[1:] if l.split()[1:2] != ["end"]]
+            small = [seg[0]] + mem_gen.ddmin(core, still, budget=40) + ["-1 end"]
+            d2 = compare_new(ctx, exe, drv, small) or compare_new(ctx, exe, drv, seg)
+            first = (label, small if compare_new(ctx, exe, drv, small) is not None else seg, d2)
+    ctx.traces_validated += len(scripts)
+    ctx.extra["new_tie_steps_compared"] = nsteps
+    ctx.extra["new_tie_fault_segments"] = nseg
+    if first is None:
+        ctx.obligation("tie:new:model_vs_C(%s)" % prop, True, "%d scripts, %d steps, %d single-fault segments" % (len(scripts), nsteps, nseg))
+        ctx.sample({"new_tie_script": NEW_DIRECTED["t8_1x1_correlated"][:8]})
+        return []
+    label, small, d = first
+    i, op, ml, cl, err = d
+    ctx.obligation("tie:new:model_vs_C(%s)" % prop, False, "%s op `%s`: model `%s` C `%s`" % (label, op, ml, cl))
+    opname = " ".join(op.split(" ")[1:2] + op.split(" ")[3:4]) if op.split()[1:2] == ["A"] or op.split()[1:2] == ["E"] else " ".join(op.split(" ")[1:2])
+    sig = mem_gen.fault_signature(1, err) if ("AddressSanitizer" in err or "runtime error" in err) else None
+    if sig is None:
+        sig = {"kind": "disagreement", "op": "new " + opname, "class": "%s|%s" % (" ".join(ml.split(" ")[1:3]), " ".join(cl.split(" ")[1:3]))}
+    else:
+        sig["op"] = "new " + opname
+    ctx.violation(sig, "vnacal_new_t allocation skeleton: model and implementation disagree on `%s` (script %s): model says `%s`, C gives `%s`" % (op, label, ml, cl),
+                  {"script": small, "op": op, "model": ml, "implementation": cl, "how": "harness/mem_wb2.c vs ocaml/drv_mem2 (coq/Mem/NewAlloc.v)", "stderr": err[-2000:]})
+    return ["tie:new"]
+
+MODELLED += NEW_MODELLED
+MODELLED_C12 += NEW_MODELLED
